@@ -570,6 +570,92 @@ func TestErrorPositionTable(t *testing.T) {
 	evid.Exhaustive("fault-x-wrapper-table", n)
 }
 
+// TestLargeTexts: positions far into a text - beyond 255 / 65535 lines, beyond column 255 / 65535, after thousands
+// of multi-byte characters, with CR LF line ends: parse, load and run errors at the end of such a text, the
+// positions of the last statement's tree, and the lookup routines at sampled offsets.
+func TestLargeTexts(t *testing.T) {
+	prefixes := []struct{ name, text string }{
+		{"300-lines", strings.Repeat("a = 1\n", 300)},
+		{"70000-lines", strings.Repeat("a = 1\n", 70000)},
+		{"long-line-300", "a = \"" + strings.Repeat("x", 300) + "\"; "},
+		{"long-line-70000", "a = \"" + strings.Repeat("x", 70000) + "\"; "},
+		{"multibyte-lines", strings.Repeat("é = \"注👍\" # é注👍\n", 5000)},
+		{"crlf-lines", strings.Repeat("a = 1\r\n", 3000)},
+		{"comment-lines", strings.Repeat("# only a comment\n", 70000)},
+		{"blank-lines", strings.Repeat("\n", 66000) + strings.Repeat(" ", 300)},
+		{"long-multibyte-line", "a = \"" + strings.Repeat("注", 30000) + "\"; "},
+	}
+	n := 0
+	for pi, pf := range prefixes {
+		if pi%evid.NShards() != evid.Shard() {
+			continue
+		}
+		// a parse error at the very end
+		{
+			src := pf.text + "y = = 2"
+			at := len(pf.text) + 4
+			_, err, crash := impl.Parse("c17.p", src)
+			rp := replay{Src: src, Part: "parse-error", Span: [2]int{at, at + 1}}
+			pe := impl.PlErr(err)
+			if crash != nil || pe == nil || len(pe.PosChain) == 0 {
+				rk.Fail(t, "large", rp, "%s: parse error expected at offset %d, got %v %v", pf.name, at, err, crash)
+			}
+			ln, col := impl.LnCol(src, at)
+			if p := pe.PosChain[0]; p.Pos != at || p.Ln != ln || p.Col != col {
+				rk.Fail(t, "large", rp, "%s: parse error located at offset %d (%d:%d), the offending token is at offset %d (%d:%d)", pf.name, p.Pos, p.Ln, p.Col, at, ln, col)
+			}
+		}
+		// load and run errors at the very end
+		for _, f := range []struct {
+			stmt string
+			load bool
+		}{{"nosuch(1)", true}, {"y = 1 + \"s\"", false}, {"l = [1]\nz = l[5]", false}} {
+			src := pf.text + f.stmt
+			start := len(pf.text)
+			if i := strings.LastIndex(f.stmt, "\n"); i >= 0 {
+				start += i + 1
+			}
+			runFaultCase(t, "large", src, [2]int{start, len(src)}, pf.name+"/"+f.stmt, f.load, 1, "large/"+pf.name+"/"+f.stmt)
+			n++
+		}
+		// tree positions of a last statement with brackets
+		{
+			tail := "zz = [1, {\"k\": f(a, b)}]"
+			src := pf.text + tail
+			stmts, err, crash := impl.Parse("c17.p", src)
+			if err != nil || crash != nil || len(stmts) == 0 {
+				rk.Fail(t, "large", replay{Src: src, Part: "tree"}, "%s: valid text not parsed: %v %v", pf.name, err, crash)
+			}
+			last := stmts[len(stmts)-1]
+			sp := last.StartPos()
+			want := len(pf.text)
+			ln, col := impl.LnCol(src, want)
+			if int(sp.Pos) != want || sp.Ln != ln || sp.Col != col {
+				rk.Fail(t, "large", replay{Src: src, Part: "tree", Span: [2]int{want, len(src)}}, "%s: last statement starts at offset %d (%d:%d), the tree says %d (%d:%d)", pf.name, want, ln, col, sp.Pos, sp.Ln, sp.Col)
+			}
+		}
+		// lookup routines at sampled offsets
+		{
+			src := pf.text + "end"
+			pc := token.NewPosCache(src)
+			for _, p := range []int{0, 1, 255, 256, 257, 65535, 65536, 65537, len(src) / 2, len(src) - 4, len(src) - 1, len(src)} {
+				if p < 0 || p > len(src) {
+					continue
+				}
+				ln, col := impl.LnCol(src, p)
+				got := pc.LnCol(token.Pos(p))
+				l2, c2, err := token.LnCol(src, token.Pos(p))
+				if got.Ln != ln || got.Col != col || err != nil || l2 != ln || c2 != col {
+					rk.Fail(t, "large", replay{Src: src, Part: "lookup", Span: [2]int{p, p}}, "%s: lookup routines disagree at offset %d: PosCache %d:%d, LnCol %d:%d (err %v), want %d:%d", pf.name, p, got.Ln, got.Col, l2, c2, err, ln, col)
+				}
+				n++
+			}
+		}
+		evid.Case("large/"+pf.name, true, "large-text")
+	}
+	evid.Exhaustive("large texts x {parse, load, run error at the end; tree start; lookup routines}", n)
+}
+
 // ------------------------------------------------------------------ (iii) lookup routines
 
 func TestLookupRoutinesExhaustive(t *testing.T) {
